@@ -661,6 +661,14 @@ func recordCase(id int64, text, tail []byte) (msg string, accepted bool) {
 	if !bytes.Equal(m, want) {
 		return fmt.Sprintf("FormatRecord(%d,%q)=%q, documented encoding %q", id, text, m, want), true
 	}
+	// the result belongs to the caller: overwriting it must not change the next answer
+	for i := range m {
+		m[i] = 'X'
+	}
+	if m2, err := tlog.FormatRecord(id, text); err != nil || !bytes.Equal(m2, want) {
+		return fmt.Sprintf("FormatRecord(%d,%q) gives %q, %v after the caller overwrote the previous result", id, text, m2, err), true
+	}
+	m = append([]byte(nil), want...)
 	full, intact2 := enum.Spare(append(append([]byte{}, m...), tail...), byte(0x5e), 3)
 	keep := string(full)
 	gid, gtext, rest, err := tlog.ParseRecord(full)
@@ -679,6 +687,14 @@ func treeCase(n int64, h tlog.Hash, extra string) string {
 	if string(b) != want {
 		return fmt.Sprintf("FormatTree = %q want %q", b, want)
 	}
+	// what is returned belongs to the caller: overwriting it must not change the next answer
+	for i := range b {
+		b[i] = 'X'
+	}
+	if b2 := tlog.FormatTree(tlog.Tree{N: n, Hash: h}); string(b2) != want {
+		return fmt.Sprintf("FormatTree gives %q after the caller overwrote the previous result (first answer %q)", b2, want)
+	}
+	b = tlog.FormatTree(tlog.Tree{N: n, Hash: h})
 	tr, err := tlog.ParseTree(append(b, extra...))
 	if err != nil || tr.N != n || tr.Hash != h {
 		return fmt.Sprintf("ParseTree(FormatTree({%d,%v})+%q) = %v, %v", n, h, extra, tr, err)
